@@ -109,3 +109,10 @@ Definition verdict (x : list (nat * (nat * bool)) * list (tev * obs)) : N :=
   let a := replay ps (map fst ps) tr init (mkAcc true true false None 0 false) in
   ((if nontriv a then 10 else 0) +
    (if negb (prop_ok a && retry_ok a) then 2 else if conform a then 0 else 1))%N.
+
+(* a caller of create_file_cleanly end to end (wholesym writing a derived .symindex file): what is at the final path after a first attempt whose
+   writes may fail, and after a retry without failures.  0 = nothing, 1 = the complete contents, 2 = anything else.
+   The property: never anything else at the final path; a failed attempt does not keep the retry from succeeding. *)
+Definition verdict_caller (x : N * N * bool) : N :=
+  let '(first, retry, ok2) := x in
+  (10 + (if (first =? 2) || negb (retry =? 1) || negb ok2 then 2 else 0))%N.
